@@ -157,3 +157,174 @@ def xy_grid(v):
         check('x', elem(x, j) == (j - w // 2) * dx)
         check('y', elem(y, i) == (i - h // 2) * dx)
         check('zero-at-origin', And(elem(x, w // 2) == 0, elem(y, h // 2) == 0))
+
+
+# ------------------------------------------------------------------ functional contracts (callee specs)
+def spec_pad2d(array, Q=2, value=0, mode='constant', out_shape=None):
+    """functional form of pad2d's contract (mode='constant'), proved against the real body by
+    pad2d/placement; used as the callee when verifying callers (modular reasoning)."""
+    m, n = array.shape
+    if out_shape is None:
+        M, N = ceil(m * Q), ceil(n * Q)
+    elif isinstance(out_shape, (tuple, list)):
+        M, N = out_shape
+    else:
+        M = N = out_shape
+    from pvc.symarr import SArr
+
+    def fn(ix):
+        si, sj = ix[0] - M // 2 + m // 2, ix[1] - N // 2 + n // 2
+        inside = And(lift(si) >= 0, lift(si) < m, lift(sj) >= 0, lift(sj) < n)
+        return ite(inside, array.at(ite(inside, si, 0), ite(inside, sj, 0)), value)
+    return SArr((M, N), fn, array.dtype)
+
+
+def spec_crop_center(img, out_shape):
+    m, n = img.shape
+    if isinstance(out_shape, (tuple, list)):
+        M, N = out_shape
+    else:
+        M = N = out_shape
+    from pvc.symarr import SArr
+    return SArr((M, N), lambda ix: img.at(ix[0] - M // 2 + m // 2, ix[1] - N // 2 + n // 2), img.dtype)
+
+
+@harness('C04', 'Wavefront.pad2d/forwards', variants=[True, False],
+         fuc=['prysm.propagation.Wavefront.pad2d', 'prysm.propagation.Wavefront.__init__'])
+def wf_pad2d(inplace):
+    """Wavefront.pad2d hands its arguments to pad2d unchanged (callee = pad2d's contract) and keeps dx,
+    wavelength, space; so the origin sample stays the origin sample."""
+    m, n = Int('m', 1), Int('n', 1)
+    M, N = Int('M', 1), Int('N', 1)
+    assume(And(M >= m, N >= n))
+    a = Array('a', (m, n), 'c')
+    dx, wvl = Real('dx', pos=True), Real('wvl', pos=True)
+    W = get('prysm.propagation.Wavefront')
+    wf = W(a, wvl, dx, 'pupil')
+    with stub('prysm.propagation', 'pad2d', spec_pad2d):
+        out = wf.pad2d(Q=1, out_shape=(M, N), inplace=inplace)
+    check('returns-self-iff-inplace', (out is wf) == inplace)
+    check('shape', shape_is(out.data, M, N))
+    check('origin-sample', elem(out.data, M // 2, N // 2) == elem(a, m // 2, n // 2))
+    k, l = idx(m, 'k'), idx(n, 'l')
+    check('placement', elem(out.data, M // 2 - m // 2 + k, N // 2 - n // 2 + l) == elem(a, k, l))
+    check('frame', And(out.dx == dx, out.wavelength == wvl, out.space == 'pupil'))
+    if not inplace:
+        check('source-untouched', And(shape_is(wf.data, m, n), elem(wf.data, k, l) == elem(a, k, l)))
+
+
+@harness('C04', 'Wavefront.crop/forwards', variants=[True, False], fuc=['prysm.propagation.Wavefront.crop'])
+def wf_crop(inplace):
+    m, n = Int('m', 1), Int('n', 1)
+    M, N = Int('M', 1), Int('N', 1)
+    assume(And(M <= m, N <= n))
+    a = Array('a', (m, n), 'c')
+    dx, wvl = Real('dx', pos=True), Real('wvl', pos=True)
+    W = get('prysm.propagation.Wavefront')
+    wf = W(a, wvl, dx, 'psf')
+    with stub('prysm.propagation', 'crop_center', spec_crop_center):
+        out = wf.crop((M, N), inplace=inplace)
+    check('returns-self-iff-inplace', (out is wf) == inplace)
+    check('shape', shape_is(out.data, M, N))
+    check('origin-sample', elem(out.data, M // 2, N // 2) == elem(a, m // 2, n // 2))
+    i, j = idx(M, 'i'), idx(N, 'j')
+    check('placement', elem(out.data, i, j) == elem(a, i - M // 2 + m // 2, j - N // 2 + n // 2))
+    check('frame', And(out.dx == dx, out.wavelength == wvl, out.space == 'psf'))
+
+
+@harness('C04', 'RichData.x|y/coords', variants=['x-first', 'y-first'],
+         fuc=['prysm._richdata.RichData.__init__', 'prysm._richdata.RichData.x', 'prysm._richdata.RichData.y',
+              'prysm.coordinates.make_xy_grid'])
+def richdata_xy(order):
+    """x[i,j] = (j - w//2) dx and y[i,j] = (i - h//2) dx whichever getter is read first."""
+    h, w = Int('h', 1), Int('w', 1)
+    d = Array('d', (h, w))
+    dx = Real('dx', pos=True)
+    R = get('prysm._richdata.RichData')
+    rd = R(d, dx, Real('wvl', pos=True))
+    if order == 'x-first':
+        x = rd.x
+        y = rd.y
+    else:
+        y = rd.y
+        x = rd.x
+    i, j = idx(h, 'i'), idx(w, 'j')
+    check('shape', And(shape_is(x, h, w), shape_is(y, h, w)))
+    check('x', elem(x, i, j) == (j - w // 2) * dx)
+    check('y', elem(y, i, j) == (i - h // 2) * dx)
+    check('zero-at-origin', And(elem(x, h // 2, w // 2) == 0, elem(y, h // 2, w // 2) == 0))
+
+
+@harness('C04', 'Slices/centre', variants=[True, False],
+         fuc=['prysm._richdata.RichData.slices', 'prysm._richdata.Slices.__init__', 'prysm._richdata.Slices.x',
+              'prysm._richdata.Slices.y'])
+def slices_centre(twosided):
+    """the slices of a data set pass through the origin sample: row h//2 and column w//2."""
+    h, w = Int('h', 1), Int('w', 1)
+    d = Array('d', (h, w))
+    dx = Real('dx', pos=True)
+    R = get('prysm._richdata.RichData')
+    rd = R(d, dx, Real('wvl', pos=True))
+    hint(h // 2, w // 2)
+    s = rd.slices(twosided=twosided)
+    check('centre-index', And(s.center_y == h // 2, s.center_x == w // 2))
+    ux, sx = s.x
+    uy, sy = s.y
+    if twosided:
+        j, i = idx(w, 'j'), idx(h, 'i')
+        check('x-slice', And(shape_is(sx, w), shape_is(ux, w), elem(sx, j) == elem(d, h // 2, j), elem(ux, j) == (j - w // 2) * dx))
+        check('y-slice', And(shape_is(sy, h), shape_is(uy, h), elem(sy, i) == elem(d, i, w // 2), elem(uy, i) == (i - h // 2) * dx))
+    else:
+        j, i = idx(w - w // 2, 'j'), idx(h - h // 2, 'i')
+        check('x-slice', And(shape_is(sx, w - w // 2), elem(sx, j) == elem(d, h // 2, w // 2 + j), elem(ux, j) == j * dx))
+        check('y-slice', And(shape_is(sy, h - h // 2), elem(sy, i) == elem(d, h // 2 + i, w // 2), elem(uy, i) == i * dx))
+
+
+@harness('C04', 'centroid/point-source', fuc=['prysm.psf.centroid'])
+def centroid_point():
+    """a point source k samples from the origin is reported k*dx from zero (both axes)."""
+    h, w = Int('h', 1), Int('w', 1)
+    p, q = idx(h, 'p'), idx(w, 'q')
+    amp = Real('amp', pos=True)
+    dx = Real('dx', pos=True)
+    d = Delta((h, w), (p, q), amp)
+    cy, cx = call('prysm.psf.centroid', d, dx=dx)
+    check('y', approx(cy, (p - h // 2) * dx))
+    check('x', approx(cx, (q - w // 2) * dx))
+    py, px = call('prysm.psf.centroid', d, unit='pixels')
+    check('pixels', And(approx(py, p), approx(px, q)))
+
+
+@harness('C04', 'Interferogram.pad/forwards', variants=['samples-int', 'samples-tuple', 'shape'],
+         fuc=['prysm.interferogram.Interferogram.pad'])
+def ifg_pad(how):
+    """Interferogram.pad reaches pad2d with the target shape the caller asked for, so the origin sample
+    of the map stays the origin sample (callee = pad2d's contract)."""
+    h, w = Int('h', 1), Int('w', 1)
+    d = Array('d', (h, w))
+    dx = Real('dx', pos=True)
+    I = get('prysm.interferogram.Interferogram')
+    ifg = I(d, dx=dx, wavelength=Real('wvl', pos=True))
+    fill = Real('fill')
+    if how == 'samples-int':
+        p = Int('p', 0)
+        H, W = h + p, w + p
+        kw = dict(samples=p)
+    elif how == 'samples-tuple':
+        p, q = Int('p', 0), Int('q', 0)
+        H, W = h + p, w + q
+        kw = dict(samples=(p, q))
+    else:
+        H, W = Int('H', 1), Int('W', 1)
+        assume(And(H >= h, W >= w))
+        kw = dict(shape=(H, W))
+    with stub('prysm.interferogram', 'pad2d', spec_pad2d):
+        out = ifg.pad(fill, **kw)
+    check('returns-self', out is ifg)
+    check('shape', shape_is(ifg.data, H, W))
+    k, l = idx(h, 'k'), idx(w, 'l')
+    check('placement', elem(ifg.data, H // 2 - h // 2 + k, W // 2 - w // 2 + l) == elem(d, k, l))
+    check('dx-kept', ifg.dx == dx)
+    x = ifg.x
+    i, j = idx(H, 'i'), idx(W, 'j')
+    check('x-regenerated', And(shape_is(x, H, W), elem(x, i, j) == (j - W // 2) * dx))
